@@ -297,6 +297,10 @@ def c03(run: Run):
         nonmin = any(b.widths for b in f["blocks"])
         run.count("nonminimal-mb" if nonmin else "minimal-mb")
         run.add("xz in=%s" % f["data"].hex(), oracle=exp_ok_out(f["out"]), tag="c03", nontrivial=len(f["blocks"]) > 0)
+        if f["blocks"] and run.rng.chance(1, 4):
+            # a sink that accepts only part of each write is still a sink: it must receive everything
+            script = ",".join(run.rng.pick(["u1", "u3", "u7", "u100"]) for _ in range(60))
+            run.add("xz sink=%s in=%s" % (script, f["data"].hex()), oracle=exp_ok_out(f["out"]), tag="c03:short-writing-sink")
         if not nonmin and all(b.props[0] in (0x16, 40) for b in f["blocks"]):   # props byte 0 = 4 KiB dictionary: liblzma enforces it, lzma-rs ignores the byte (recorded leniency)
             r = liblzma_xz(f["data"])
             spec_check(run, "xz " + f["desc"], r[0] == "ok" and r[1] == f["out"])
@@ -565,6 +569,9 @@ def c15(run: Run):
         # 5-byte header (size supplied by the caller): header + preamble is 10 bytes, the staging buffer holds 18
         forms.append(("up:%s" % ("none" if m["eos"] else L),
                       lzma_header(m["lc"], m["lp"], m["pb"], m["dict"], "skip") + m["payload"], 5))
+        # 13-byte header whose size field is read and ignored
+        forms.append(("hup:%s" % ("none" if m["eos"] else L),
+                      lzma_header(m["lc"], m["lp"], m["pb"], m["dict"], rng.pick([0, 7, 2**63])) + m["payload"], 13))
         for us, data, hl in forms:
             tr = run.add("trace us=%s in=%s" % (us, data.hex()), oracle=None, cmp=False, tag="c15:trace", nontrivial=False)
             cuts = sorted(set([hl + 5, hl + 6, hl + 7, hl + 12, len(data) // 2, len(data) - 1, len(data)] +
@@ -584,8 +591,12 @@ def c15(run: Run):
                         if rng.chance(1, 4):
                             ops.append("f")          # Write::flush between writes
                     ops.append("fin")
-                    k = run.add("stream us=%s ai=1 full=1 ops=%s" % (us, ";".join(ops)), oracle=None,
-                                tag="c15:prefix:" + us.split(":")[0], nontrivial=cut < len(data))
+                    sink = ""
+                    if len(m["out"]) > m["dict"] and rng.chance(1, 2):
+                        # the window is handed to the sink lap by lap: a sink taking part of each write must still get all of it
+                        sink = " sink=" + ",".join(rng.pick(["u1000", "u777", "u4000"]) for _ in range(80))
+                    k = run.add("stream us=%s ai=1 full=1%s ops=%s" % (us, sink, ";".join(ops)), oracle=None,
+                                tag="c15:prefix:" + us.split(":")[0] + (":shortsink" if sink else ""), nontrivial=cut < len(data))
                     groups.append((k, tr, m, cut))
 
     def post(run):
